@@ -1,0 +1,291 @@
+//! Verification hooks (cargo feature `Verif_Hooks`, off by default): a drop-in replacement for
+//! `std::sync::Mutex` that can record which locks are requested while which others are held
+//! (lock-order graph), detect wait-for cycles at blocking time and add seeded scheduling jitter.
+//! With tracking disabled (the default) it only delegates to the std mutex.
+
+use std::cell::RefCell;
+use std::collections::HashMap;
+use std::fmt;
+use std::ops::{Deref, DerefMut};
+use std::sync::atomic::{AtomicBool, AtomicU64, Ordering};
+use std::sync::{LockResult, OnceLock, PoisonError, TryLockError, TryLockResult};
+use std::thread::ThreadId;
+
+static TRACKING: AtomicBool = AtomicBool::new(false);
+static JITTER: AtomicU64 = AtomicU64::new(0);
+static JITTER_COUNTER: AtomicU64 = AtomicU64::new(0);
+
+/// One observed "requested `to` while holding `from`".
+#[derive(Clone, Debug)]
+pub struct Edge {
+    pub from_class: &'static str,
+    pub to_class: &'static str,
+    pub from_id: usize,
+    pub to_id: usize,
+    pub thread: String,
+    pub count: u64,
+}
+
+#[derive(Default)]
+struct Registry {
+    edges: HashMap<(usize, usize), Edge>,
+    owner: HashMap<usize, (ThreadId, String)>,
+    waiting: HashMap<ThreadId, (usize, &'static str)>,
+    deadlocks: Vec<String>,
+}
+
+fn registry() -> &'static std::sync::Mutex<Registry> {
+    static R: OnceLock<std::sync::Mutex<Registry>> = OnceLock::new();
+    R.get_or_init(|| std::sync::Mutex::new(Registry::default()))
+}
+
+thread_local! {
+    static HELD: RefCell<Vec<(usize, &'static str)>> = const { RefCell::new(Vec::new()) };
+}
+
+/// Switches recording on or off (process wide) and forgets what was recorded.
+pub fn set_tracking(on: bool) {
+    let mut r = registry().lock().unwrap_or_else(|e| e.into_inner());
+    r.edges.clear();
+    r.owner.clear();
+    r.waiting.clear();
+    r.deadlocks.clear();
+    TRACKING.store(on, Ordering::SeqCst);
+}
+
+/// 0 = no jitter; otherwise the seed of the yields/sleeps injected before lock acquisitions.
+pub fn set_jitter(seed: u64) {
+    JITTER.store(seed, Ordering::SeqCst);
+}
+
+pub fn edges() -> Vec<Edge> {
+    registry().lock().unwrap_or_else(|e| e.into_inner()).edges.values().cloned().collect()
+}
+
+/// Descriptions of the wait-for cycles found so far (each is a proven deadlock).
+pub fn deadlocks() -> Vec<String> {
+    registry().lock().unwrap_or_else(|e| e.into_inner()).deadlocks.clone()
+}
+
+fn short(class: &'static str) -> &'static str {
+    class
+}
+
+pub struct Mutex<T: ?Sized> {
+    inner: std::sync::Mutex<T>,
+}
+
+pub struct MutexGuard<'a, T: ?Sized + 'a> {
+    guard: Option<std::sync::MutexGuard<'a, T>>,
+    id: usize,
+    tracked: bool,
+}
+
+impl<T> Mutex<T> {
+    pub fn new(t: T) -> Mutex<T> {
+        Mutex { inner: std::sync::Mutex::new(t) }
+    }
+}
+
+impl<T> From<T> for Mutex<T> {
+    fn from(t: T) -> Self {
+        Mutex::new(t)
+    }
+}
+
+impl<T: Default> Default for Mutex<T> {
+    fn default() -> Self {
+        Mutex::new(T::default())
+    }
+}
+
+impl<T: ?Sized + fmt::Debug> fmt::Debug for Mutex<T> {
+    fn fmt(&self, f: &mut fmt::Formatter<'_>) -> fmt::Result {
+        fmt::Debug::fmt(&self.inner, f)
+    }
+}
+
+impl<T: ?Sized> Mutex<T> {
+    fn id(&self) -> usize {
+        &self.inner as *const std::sync::Mutex<T> as *const () as usize
+    }
+
+    fn jitter() {
+        let seed = JITTER.load(Ordering::Relaxed);
+        if seed != 0 {
+            let n = JITTER_COUNTER.fetch_add(1, Ordering::Relaxed);
+            let mut x = seed ^ n.wrapping_mul(0x9E37_79B9_7F4A_7C15);
+            x ^= x >> 29;
+            x = x.wrapping_mul(0xBF58_476D_1CE4_E5B9);
+            x ^= x >> 32;
+            match x % 64 {
+                0 => std::thread::sleep(std::time::Duration::from_micros(200)),
+                1..=8 => std::thread::yield_now(),
+                _ => {}
+            }
+        }
+    }
+
+    fn wrap<'a>(&'a self, g: std::sync::MutexGuard<'a, T>, tracked: bool) -> MutexGuard<'a, T> {
+        let id = self.id();
+        if tracked {
+            let class = short(std::any::type_name::<T>());
+            HELD.with(|h| h.borrow_mut().push((id, class)));
+            let me = std::thread::current();
+            let mut r = registry().lock().unwrap_or_else(|e| e.into_inner());
+            r.owner.insert(id, (me.id(), me.name().unwrap_or("?").to_string()));
+            r.waiting.remove(&me.id());
+        }
+        MutexGuard { guard: Some(g), id, tracked }
+    }
+
+    /// Records the request and looks for a wait-for cycle. Returns a description if this
+    /// request closes a cycle (a deadlock, or a thread locking what it already holds).
+    fn before_blocking(&self) -> Option<String> {
+        let id = self.id();
+        let class = short(std::any::type_name::<T>());
+        let me = std::thread::current();
+        let held: Vec<(usize, &'static str)> = HELD.with(|h| h.borrow().clone());
+        let mut r = registry().lock().unwrap_or_else(|e| e.into_inner());
+        for (hid, hclass) in &held {
+            let e = r.edges.entry((*hid, id)).or_insert(Edge {
+                from_class: hclass,
+                to_class: class,
+                from_id: *hid,
+                to_id: id,
+                thread: me.name().unwrap_or("?").to_string(),
+                count: 0,
+            });
+            e.count += 1;
+        }
+        if held.iter().any(|(hid, _)| *hid == id) {
+            let d = format!("thread '{}' locks {} ({:#x}) which it already holds", me.name().unwrap_or("?"), class, id);
+            r.deadlocks.push(d.clone());
+            return Some(d);
+        }
+        r.waiting.insert(me.id(), (id, class));
+        // follow owner -> what the owner waits for -> its owner ...
+        let mut chain = vec![format!("'{}' waits for {} ({:#x})", me.name().unwrap_or("?"), class, id)];
+        let mut cur = id;
+        for _ in 0..64 {
+            let Some((otid, oname)) = r.owner.get(&cur).cloned() else { break };
+            if otid == me.id() {
+                let d = format!("wait-for cycle: {}", chain.join(" held by "));
+                r.deadlocks.push(d.clone());
+                return Some(d);
+            }
+            let Some((wid, wclass)) = r.waiting.get(&otid).cloned() else { break };
+            chain.push(format!("'{}' which waits for {} ({:#x})", oname, wclass, wid));
+            cur = wid;
+        }
+        None
+    }
+
+    pub fn lock(&self) -> LockResult<MutexGuard<'_, T>> {
+        let tracked = TRACKING.load(Ordering::Relaxed);
+        if !tracked {
+            return match self.inner.lock() {
+                Ok(g) => Ok(self.wrap(g, false)),
+                Err(p) => Err(PoisonError::new(self.wrap(p.into_inner(), false))),
+            };
+        }
+        Self::jitter();
+        // fast path
+        match self.inner.try_lock() {
+            Ok(g) => {
+                let _ = self.before_blocking_edges_only();
+                return Ok(self.wrap(g, true));
+            }
+            Err(TryLockError::Poisoned(p)) => {
+                let _ = self.before_blocking_edges_only();
+                return Err(PoisonError::new(self.wrap(p.into_inner(), true)));
+            }
+            Err(TryLockError::WouldBlock) => {}
+        }
+        if let Some(d) = self.before_blocking() {
+            if d.contains("already holds") {
+                // would block this thread forever: make it visible instead
+                panic!("verif_sync: {}", d);
+            }
+        }
+        match self.inner.lock() {
+            Ok(g) => Ok(self.wrap(g, true)),
+            Err(p) => Err(PoisonError::new(self.wrap(p.into_inner(), true))),
+        }
+    }
+
+    fn before_blocking_edges_only(&self) -> Option<String> {
+        let id = self.id();
+        let class = short(std::any::type_name::<T>());
+        let held: Vec<(usize, &'static str)> = HELD.with(|h| h.borrow().clone());
+        if held.is_empty() {
+            return None;
+        }
+        let me = std::thread::current();
+        let mut r = registry().lock().unwrap_or_else(|e| e.into_inner());
+        for (hid, hclass) in &held {
+            let e = r.edges.entry((*hid, id)).or_insert(Edge {
+                from_class: hclass,
+                to_class: class,
+                from_id: *hid,
+                to_id: id,
+                thread: me.name().unwrap_or("?").to_string(),
+                count: 0,
+            });
+            e.count += 1;
+        }
+        None
+    }
+
+    pub fn try_lock(&self) -> TryLockResult<MutexGuard<'_, T>> {
+        let tracked = TRACKING.load(Ordering::Relaxed);
+        match self.inner.try_lock() {
+            Ok(g) => Ok(self.wrap(g, tracked)),
+            Err(TryLockError::Poisoned(p)) => Err(TryLockError::Poisoned(PoisonError::new(self.wrap(p.into_inner(), tracked)))),
+            Err(TryLockError::WouldBlock) => Err(TryLockError::WouldBlock),
+        }
+    }
+}
+
+impl<T: ?Sized> Drop for MutexGuard<'_, T> {
+    fn drop(&mut self) {
+        if self.tracked {
+            let id = self.id;
+            HELD.with(|h| {
+                let mut h = h.borrow_mut();
+                if let Some(pos) = h.iter().rposition(|(x, _)| *x == id) {
+                    h.remove(pos);
+                }
+            });
+            if let Ok(mut r) = registry().lock() {
+                r.owner.remove(&id);
+            }
+        }
+        self.guard.take();
+    }
+}
+
+impl<T: ?Sized> Deref for MutexGuard<'_, T> {
+    type Target = T;
+    fn deref(&self) -> &T {
+        self.guard.as_ref().unwrap()
+    }
+}
+
+impl<T: ?Sized> DerefMut for MutexGuard<'_, T> {
+    fn deref_mut(&mut self) -> &mut T {
+        self.guard.as_mut().unwrap()
+    }
+}
+
+impl<T: ?Sized + fmt::Display> fmt::Display for MutexGuard<'_, T> {
+    fn fmt(&self, f: &mut fmt::Formatter<'_>) -> fmt::Result {
+        (**self).fmt(f)
+    }
+}
+
+impl<T: ?Sized + fmt::Debug> fmt::Debug for MutexGuard<'_, T> {
+    fn fmt(&self, f: &mut fmt::Formatter<'_>) -> fmt::Result {
+        (**self).fmt(f)
+    }
+}
